@@ -58,6 +58,30 @@ def absM (o : Ops K) (n : Nat) (M : Array (Array K)) : Array (Array Rat) :=
   (Array.range n).map fun i => (Array.range n).map fun j => o.mag (at2 M i j)
 def at2r (M : Array (Array Rat)) (i j : Nat) : Rat := (M.getD i #[]).getD j 0
 
+/-- the documented threshold rule on exact ratios (clear cases only; see `Slu.Drv.History.propEquilRule`):
+`some (rows, cols)` = whether gsequ/laqgs must scale the rows / the columns of the matrix handed in -/
+def equilRule (dbl : Bool) (w n : Nat) (colptr rowind : Array Nat) (raw : Array UInt64) : Option (Option Bool × Option Bool) := Id.run do
+  let some comps := ratsOf dbl raw | return none
+  let mag (p : Nat) : Rat := (List.range w).foldl (fun a t => a + rabs (comps.getD (w * p + t) 0)) 0
+  let mut rmax : Array Rat := Array.replicate n 0
+  for j in List.range n do
+    for p in List.range' (colptr.getD j 0) (colptr.getD (j+1) 0 - colptr.getD j 0) do
+      let i := rowind.getD p 0
+      if mag p > rmax.getD i 0 then rmax := rmax.setIfInBounds i (mag p)
+  let big : Rat := (2 : Rat) ^ 60
+  if rmax.any (fun x => x == 0 ∨ x > big ∨ x < 1 / big) then return none
+  let hi := rmax.foldl max 0; let lo := rmax.foldl min hi
+  let mut cmax : Array Rat := Array.replicate n 0
+  for j in List.range n do
+    for p in List.range' (colptr.getD j 0) (colptr.getD (j+1) 0 - colptr.getD j 0) do
+      let m := mag p / rmax.getD (rowind.getD p 0) 1
+      if m > cmax.getD j 0 then cmax := cmax.setIfInBounds j m
+  if cmax.any (· == 0) then return none
+  let chi := cmax.foldl max 0; let clo := cmax.foldl min chi
+  let thr : Rat := 1 / 10; let mrg : Rat := 1 / 1000000
+  let dec (x : Rat) : Option Bool := if x < thr * (1 - mrg) then some true else if x > thr * (1 + mrg) then some false else none
+  return some (dec (lo / hi), dec (clo / chi))
+
 def handleG (o : Ops K) (c : Case) : Res := Id.run do
   let dbl := c.isDouble
   let n := c.pNat "n"; let nrhs := c.pNat "nrhs"; let ldb := c.pNat "ldb"; let ldx := c.pNat "ldx"
@@ -93,6 +117,9 @@ def handleG (o : Ops K) (c : Case) : Res := Id.run do
   let some _ := o.dec dbl (c.raw "U.val") | return Res.propFalse s!"{call}: non-finite value stored in U" tags
   let F : LUFac K := LUFac.ofCase c (fun a => (o.dec dbl a).getD #[])
   if let some e := wfLU F then return Res.propFalse s!"{call}: factors not well-formed: {e}" tags
+  -- the nnz fields describe the returned structure (ilu_countnz), also after a refactorization into reused storage
+  if F.nnzL ≠ Slu.Struct.countnzL F.L ∨ F.nnzU ≠ Slu.Struct.countnzU F then
+    return Res.propFalse s!"{call}: storage: L.nnz, U.nnz = {F.nnzL}, {F.nnzU} but the returned structure holds {Slu.Struct.countnzL F.L}, {Slu.Struct.countnzU F} entries (refact={c.p "refact"})" tags
   let Ud := tabulate n (fun i j => F.decodeU i j)
   if let some j := (List.range n).find? (fun j => at2 Ud j j == 0) then
     return Res.propFalse s!"{call}: U({j},{j}) is zero" tags
@@ -101,6 +128,14 @@ def handleG (o : Ops K) (c : Case) : Res := Id.run do
   -- equed is an output of a factorizing call: one of the four letters, and N when no equilibration was asked for
   if ¬ (equed == "N" ∨ equed == "R" ∨ equed == "C" ∨ equed == "B") then
     return Res.propFalse s!"{call}: equed={equed} returned by a factorizing call (not one of N R C B; on entry it held {c.p "equed_in"})" tags
+  -- "If MC64 fails, ?gsequ() is used to equilibrate the system": the threshold rule then decides equed
+  if c.p "rowperm" == "MC64" ∧ c.pInt "mc64ret" (-99) ≠ 0 ∧ c.pInt "mc64ret" (-99) ≠ -99 ∧ c.pNat "equil" = 1 ∧ c.p "refact" ≠ "1" then
+    match equilRule dbl w n (c.nat "A.colptr") (c.nat "A.rowind") (c.raw "A.val") with
+    | some (rw, cl) =>
+      let hasR := equed == "R" || equed == "B"; let hasC := equed == "C" || equed == "B"
+      if rw == some (!hasR) ∨ cl == some (!hasC) then
+        return Res.propFalse s!"{call}: equil: MC64 fails on this matrix (ldperm returns {c.pInt "mc64ret"}), Equil = YES, the threshold rule asks for rows={repr rw} columns={repr cl}, but equed={equed}" ("mc64-failed" :: tags)
+    | none => pure ()
   if c.pNat "equil" = 0 ∧ equed != "N" then
     return Res.propFalse s!"{call}: Equil=NO but equed={equed} is returned (on entry it held {c.p "equed_in"})" tags
   if equed == "N" ∧ (firstDiff (c.raw "A.val") (c.raw "Ao.val")).isSome then
